@@ -9,6 +9,7 @@ verus! {
 //@ include prelude/panic.rs
 //@ include prelude/highbits.rs
 //@ include prelude/bitval.rs
+//@ include prelude/congm.rs
 pub mod u {
 use super::*;
 
@@ -165,8 +166,6 @@ fn inv_mod_alt(b: BigDigit) -> /*+*/(r: /*-*/BigDigit/*+*/)/*-*/
 //@ end
 
 
-/// congruence modulo m over the integers
-pub open spec fn congm(x: int, y: int, m: int) -> bool { exists|k: int| x == y + #[trigger] (k * m) }
 
 /// changing only the digits in [i, i+n) changes the value by B^i times the change of that window
 pub proof fn lemma_val_window(w: Seq<u64>, w2: Seq<u64>, i: nat, n: nat)
@@ -445,7 +444,7 @@ fn montgomery(x: &BigUint, y: &BigUint, m: &BigUint, k: BigDigit, n: usize) -> /
 //+{
     requires
         !mp() ==> x.data@.len() == n && y.data@.len() == n && m.data@.len() == n,
-        n >= 1, n < 0x100_0000_0000_0000,
+        n >= 1, n < 0x200_0000_0000_0000,
         m.data@.len() == n ==> ((k as int) * (m.data@[0] as int) + 1) % BI() == 0,
     ensures
         mp() ==> x.data@.len() == n && y.data@.len() == n && m.data@.len() == n,
@@ -473,7 +472,7 @@ fn montgomery(x: &BigUint, y: &BigUint, m: &BigUint, k: BigDigit, n: usize) -> /
     for i in /*+*/it: /*-*/0..n
 //+{
         invariant
-            xs == x.data@, ys == y.data@, ms == m.data@, xs.len() == nn, ys.len() == nn, ms.len() == nn, nn == n, nn >= 1, n < 0x100_0000_0000_0000,
+            xs == x.data@, ys == y.data@, ms == m.data@, xs.len() == nn, ys.len() == nn, ms.len() == nn, nn == n, nn >= 1, n < 0x200_0000_0000_0000,
             xv == val(xs), mv == val(ms), ((k as int) * (ms[0] as int) + 1) % BI() == 0,
             z.data@.len() == 2 * nn, c <= 1, it.index@ <= nn, it.seq().len() == nn,
             forall|j: int| 0 <= j < nn ==> it.seq()[j] == j,
